@@ -47,7 +47,7 @@ class P(vlib.Prop):
             "extensions.New/Start/Shutdown, same failure plan. service (kind 2): service.New + Start + Shutdown driven as "
             "collector.go does, pipelines + extensions + config/pipeline watchers, every single Start/Shutdown/notification "
             "failure + 6 random assignments. otelcol (kind 3): the real Collector.Run on a generated configuration; (kind 6): 120 Collector.Run over 2-4 "
-            "configurations with real reloads (config-watch events), failing new-service Start / retiring-service Shutdown, failing provider Shutdown / close functions, stop by Shutdown() / context / async error. "
+            "configurations with real reloads (config-watch events), failing new-service Start / retiring-service Shutdown, failing provider Shutdown / close functions, loop left by Shutdown() / context / async error / config-watch error / SIGTERM. "
             "e2e (kind 5): service.New/Start/Shutdown in internal/e2e with receivers shared between signals through the real "
             "sharedcomponent.Map (one graph node per signal, one inner component), inner Start/Shutdown failures per key; the "
             "model recomputes the inner events and the errors the wrappers return. "
